@@ -1,7 +1,7 @@
 //! bounded(SEQS (default 300; `thorough`: 5000) pseudo-random schedules of 200 steps over 2 peers. The initiator behaviour of pallas-network2 runs against a simulated
 //! interface and a specification-conformant responder: what the behaviour sends is on the wire at once and answered at once by the responder (handshake
 //! accepted, keep-alive echoed, share request answered within the amount, intersection found, next header rolled forward or awaited, block range served), but
-//! the SENT confirmation and the answers reach the behaviour later, in order, at pseudo-random moments — with commands (IncludePeer, Housekeeping, StartSync,
+//! the SENT confirmation (in every second schedule; in the others it is immediate) and the answers reach the behaviour later, in order, at pseudo-random moments — with commands (IncludePeer, Housekeeping, StartSync,
 //! ContinueSync, RequestBlocks) in between, Housekeeping most often. A shadow copy of the five protocol state machines (handshake, keep-alive, peer sharing,
 //! chain sync, block fetch — the library's own State::apply, whose conformance to the specification is proved under C24) follows what the initiator has
 //! emitted (at emission) and received (at delivery). Every message
@@ -21,13 +21,15 @@ struct Shadow { handshake: proto::handshake::State<proto::handshake::n2n::Versio
     chainsync: proto::chainsync::State<proto::chainsync::HeaderContent>, blockfetch: proto::blockfetch::State }
 impl Shadow {
     /// the message in wire order; Err(protocol) if the protocol's state machine does not permit it
-    fn apply(&mut self, m: &AnyMessage) -> Result<(), &'static str> {
+    fn apply(&mut self, m: &AnyMessage) -> Result<(), String> {
+        // the protocol and the state (variant name) it was in
+        fn st<T: std::fmt::Debug>(p: &str, s: &T) -> String { let d = format!("{s:?}"); format!("{p} state machine in state {}", d.split(|c: char| !c.is_alphanumeric()).next().unwrap_or("?")) }
         match m {
-            AnyMessage::Handshake(x) => { self.handshake = self.handshake.apply(x).map_err(|_| "handshake")?; }
-            AnyMessage::KeepAlive(x) => { self.keepalive = self.keepalive.apply(x).map_err(|_| "keep-alive")?; }
-            AnyMessage::PeerSharing(x) => { self.peersharing = self.peersharing.apply(x).map_err(|_| "peer-sharing")?; }
-            AnyMessage::ChainSync(x) => { self.chainsync = self.chainsync.apply(x).map_err(|_| "chain-sync")?; }
-            AnyMessage::BlockFetch(x) => { self.blockfetch = self.blockfetch.apply(x).map_err(|_| "block-fetch")?; }
+            AnyMessage::Handshake(x) => { self.handshake = self.handshake.apply(x).map_err(|_| st("handshake", &self.handshake))?; }
+            AnyMessage::KeepAlive(x) => { self.keepalive = self.keepalive.apply(x).map_err(|_| st("keep-alive", &self.keepalive))?; }
+            AnyMessage::PeerSharing(x) => { self.peersharing = self.peersharing.apply(x).map_err(|_| st("peer-sharing", &self.peersharing))?; }
+            AnyMessage::ChainSync(x) => { self.chainsync = self.chainsync.apply(x).map_err(|_| st("chain-sync", &self.chainsync))?; }
+            AnyMessage::BlockFetch(x) => { self.blockfetch = self.blockfetch.apply(x).map_err(|_| st("block-fetch", &self.blockfetch))?; }
             _ => {}      // tx-submission (open C24 findings in its state machine) and the leios protocols are not followed
         }
         Ok(())
@@ -66,28 +68,30 @@ fn run(seed: u64, accept: &AnyMessage) -> Option<String> {
     for _step in 0..200 {
         let k = 1 + r.below(2) as usize;
         let what: String;
-        match r.below(10) {
+        match r.below(20) {
             0 => { what = format!("IncludePeer({k})"); b.execute(InitiatorCommand::IncludePeer(pid(k as u64))); }
-            1 | 2 | 3 => { what = "Housekeeping".into(); b.execute(InitiatorCommand::Housekeeping); }
-            4 => { match r.below(3) { 0 => { what = "StartSync".into(); b.execute(InitiatorCommand::StartSync(vec![proto::Point::Specific(50, vec![2; 32]), proto::Point::Origin])); }
-                    1 => { what = format!("ContinueSync({k})"); b.execute(InitiatorCommand::ContinueSync(pid(k as u64))); }
-                    _ => { what = "RequestBlocks".into(); b.execute(InitiatorCommand::RequestBlocks((proto::Point::Specific(60, vec![3; 32]), proto::Point::Specific(70, vec![4; 32])))); } } }
-            5 => { let w = &mut wires[k]; if w.connect_asked && !w.connected { w.connected = true; what = format!("Connected({k})"); b.handle_io(InterfaceEvent::Connected(pid(k as u64))); } else { continue; } }
-            6 | 7 => { let w = &mut wires[k]; match w.unconfirmed.pop_front() { Some((m, ans)) => { what = format!("Sent({k}, {})", short(&m)); w.inbound.extend(ans); b.handle_io(InterfaceEvent::Sent(pid(k as u64), m)); } None => continue } }
+            1 | 2 | 3 | 4 => { what = "Housekeeping".into(); b.execute(InitiatorCommand::Housekeeping); }
+            5 => { what = "StartSync".into(); b.execute(InitiatorCommand::StartSync(vec![proto::Point::Specific(50, vec![2; 32]), proto::Point::Origin])); }
+            6 | 7 | 8 => { what = format!("ContinueSync({k})"); b.execute(InitiatorCommand::ContinueSync(pid(k as u64))); }
+            9 => { what = "RequestBlocks".into(); b.execute(InitiatorCommand::RequestBlocks((proto::Point::Specific(60, vec![3; 32]), proto::Point::Specific(70, vec![4; 32])))); }
+            10 | 11 => { let w = &mut wires[k]; if w.connect_asked && !w.connected { w.connected = true; what = format!("Connected({k})"); b.handle_io(InterfaceEvent::Connected(pid(k as u64))); } else { continue; } }
+            12 | 13 | 14 | 15 => { let w = &mut wires[k]; match w.unconfirmed.pop_front() { Some((m, ans)) => { what = format!("Sent({k}, {})", short(&m)); w.inbound.extend(ans); b.handle_io(InterfaceEvent::Sent(pid(k as u64), m)); } None => continue } }
             _ => { let w = &mut wires[k]; match w.inbound.pop_front() { Some(m) => { what = format!("Recv({k}, {})", short(&m));
                     // the shadow follows what the INITIATOR has emitted and received: an answer counts from the moment it is delivered
                     if w.shadow.apply(&m).is_err() { return Some(format!("seed {seed}: the simulated responder is not conformant ({})", short(&m))); }
                     b.handle_io(InterfaceEvent::Recv(pid(k as u64), vec![m])); } None => continue } }
         }
         log.push(what);
-        // what the behaviour emits goes on the wire now, in order
+        // what the behaviour emits goes on the wire now, in order; in the PROMPT mode (every second seed) the interface confirms each send before anything else
+        // happens — no lag between emission and confirmation, so what is found there is not a matter of delayed confirmations
+        loop {
         for _ in 0..10_000 { match b.poll_next_unpin(&mut cx) {
             std::task::Poll::Ready(Some(BehaviorOutput::InterfaceCommand(InterfaceCommand::Connect(p)))) => { if let Some(i) = (1..3).find(|i| pid(*i as u64) == p) { wires[i].connect_asked = true; } }
             std::task::Poll::Ready(Some(BehaviorOutput::InterfaceCommand(InterfaceCommand::Disconnect(p)))) => { if let Some(i) = (1..3).find(|i| pid(*i as u64) == p) { wires[i] = Wire::default(); b.handle_io(InterfaceEvent::Disconnected(p)); log.push(format!("Disconnected({i})")); } }
             std::task::Poll::Ready(Some(BehaviorOutput::InterfaceCommand(InterfaceCommand::Send(p, m)))) => {
                 let Some(i) = (1..3).find(|i| pid(*i as u64) == p) else { continue };
                 if let Err(proto_name) = wires[i].shadow.apply(&m) {
-                    return Some(format!("seed {seed}: after [{}] the initiator emits {} to peer {i}, which the {proto_name} state machine does not permit after the messages already exchanged with that peer", log.join(", "), short(&m)));
+                    return Some(format!("seed {seed}: after [{}] the initiator emits {} to peer {i}, which the {proto_name} does not permit after the messages already exchanged with that peer", log.join(", "), short(&m)));
                 }
                 STATS.with(|st| *st.borrow_mut().entry(short(&m).chars().take(24).collect::<String>()).or_insert(0u64) += 1);
                 let ans = answers(&m, &mut r, accept);
@@ -95,6 +99,11 @@ fn run(seed: u64, accept: &AnyMessage) -> Option<String> {
             }
             std::task::Poll::Ready(Some(_)) => {}
             _ => break } }
+            if seed % 2 == 0 { break; }
+            let mut any = false;
+            for i in 1..3 { while let Some((m, ans)) = wires[i].unconfirmed.pop_front() { any = true; log.push(format!("Sent({i}, {})", short(&m))); wires[i].inbound.extend(ans); b.handle_io(InterfaceEvent::Sent(pid(i as u64), m)); } }
+            if !any { break; }
+        }
     }
     None
 }
@@ -121,13 +130,14 @@ async fn main() {
         return;
     }
     let mut found: Vec<String> = Vec::new();
-    for seed in 1..=seqs { if let Some(v) = run(seed, &accept) { if std::env::var("C28_STATS").is_ok() && found.len() < 3 { println!("found: {}", &v[..v.len().min(300)]); } found.push(v); if found.len() >= 200 { break; } } }
+    for seed in 1..=seqs { if let Some(v) = run(seed, &accept) { if std::env::var("C28_STATS").is_ok() && found.len() < 3 { println!("found: {}", &v[..v.len().min(300)]); } found.push(v); if found.len() >= 2000 { break; } } }
     // one line per (protocol, emitted message kind): the shortest schedule each
     let mut by_kind: std::collections::BTreeMap<String, String> = Default::default();
     for v in found {
         let proto_name = ["handshake", "keep-alive", "peer-sharing", "chain-sync", "block-fetch"].iter().find(|k| v.contains(&format!("the {k} state machine"))).map(|k| k.replace('-', "_")).unwrap_or_else(|| "other".into());
+        let in_state: String = v.split("state machine in state ").nth(1).map(|t| t.split(' ').next().unwrap_or("?").to_string()).unwrap_or_else(|| "?".into());
         let kind: String = v.split("the initiator emits ").nth(1).map(|t| t.split(|c: char| !c.is_alphanumeric()).filter(|x| !x.is_empty()).nth(1).unwrap_or("message").to_string()).unwrap_or_else(|| "responder".into());
-        let key = format!("C28.{proto_name}.{kind}_emitted_when_the_protocol_does_not_permit_it");
+        let key = format!("C28.{proto_name}.{kind}_emitted_in_state_{in_state}");
         let e = by_kind.entry(key).or_insert_with(|| v.clone()); if v.len() < e.len() { *e = v; } }
     for (k, v) in &by_kind { println!("DEVIATION: {k} {v}"); }
     if std::env::var("C28_STATS").is_ok() { STATS.with(|st| println!("emitted: {:?}", st.borrow())); }
